@@ -31,10 +31,16 @@ const (
 	FWriteShort  uint32 = 6 // injected: writer returns (n<len, err) and stays broken
 	FExecErr     uint32 = 7 // injected: context call-back returns an error
 	FExecErrP2   uint32 = 8 // injected: call-back returns a *pongo2.Error
-	faultKindMax        = 9
+	FExecPanic   uint32 = 9 // injected: call-back panics (caller code dies in the middle of an execution)
+	faultKindMax        = 10
 )
 
-var faultNames = [...]string{"none", "get_enoent", "get_eio", "read_eio_at", "read_short", "write_eio_at", "write_short_at", "exec_err_at", "exec_err_p2_at"}
+var faultNames = [...]string{"none", "get_enoent", "get_eio", "read_eio_at", "read_short", "write_eio_at", "write_short_at", "exec_err_at", "exec_err_p2_at", "exec_panic_at"}
+
+// InjectedPanic is the value a call-back panics with under FExecPanic.
+type InjectedPanic struct{}
+
+func (InjectedPanic) String() string { return "sim: injected panic in caller code" }
 
 func FaultName(f uint32) string { return faultNames[f] }
 
@@ -142,6 +148,7 @@ type local struct {
 // World
 
 type World struct {
+	WriterKind int // which kind of io.Writer the caller hands in (see CallerWriter)
 	Sched *Sched // nil: direct mode only
 	disks []*disk
 
@@ -582,6 +589,28 @@ type SimWriter struct {
 
 func (w *World) NewWriter() *SimWriter { return &SimWriter{w: w} }
 
+// Writers that can also be flushed (what an engine may probe for with a type assertion):
+// nothing is ever held back by SimWriter, so there is never anything to flush.
+type simFlushErrWriter struct{ *SimWriter }
+
+func (simFlushErrWriter) Flush() error { return nil }
+
+type simFlushWriter struct{ *SimWriter }
+
+func (simFlushWriter) Flush() {}
+
+// CallerWriter wraps sw in the writer kind this world hands to the engine
+// (0: io.Writer only, 1: with Flush() error, 2: with Flush()).
+func (w *World) CallerWriter(sw *SimWriter) io.Writer {
+	switch w.WriterKind {
+	case 1:
+		return simFlushErrWriter{sw}
+	case 2:
+		return simFlushWriter{sw}
+	}
+	return sw
+}
+
 func (sw *SimWriter) Write(p []byte) (int, error) {
 	sw.Calls++
 	if sw.broken {
@@ -623,6 +652,8 @@ func (w *World) Callback(id uint32) error {
 		return ErrInjectedExec
 	case FExecErrP2:
 		return &pongo2.Error{Sender: "sim", OrigError: ErrInjectedExec}
+	case FExecPanic:
+		panic(InjectedPanic{})
 	}
 	return nil
 }
